@@ -1,6 +1,7 @@
 //! vharness <layer>: reads one case per line on stdin, runs it on the real Shuttle crates,
 //! prints one canonical result line per case.  No oracle logic lives here.
 mod l_codec;
+mod l_prog;
 
 use std::io::{BufRead, Write};
 
@@ -19,6 +20,7 @@ fn main() {
         let words: Vec<&str> = line.split(' ').filter(|w| !w.is_empty()).collect();
         let res = match layer.as_str() {
             "codec" => l_codec::run(&words),
+            "prog" => l_prog::run(&words),
             _ => {
                 eprintln!("usage: vharness <codec>");
                 std::process::exit(2);
